@@ -444,3 +444,271 @@ Proof.
        (apply (flags_drain _ k (or_introl eq_refl) Hf) || apply (flags_drain _ k (or_intror eq_refl) Hf));
        apply (Hd k Hin)).
 Qed.
+
+Lemma reach_inv c s : reach c s -> Inv c s.
+Proof. induction 1 as [|s e s' _ IH Hf Hs]; [apply init_inv|]. eapply step_inv; eauto. Qed.
+
+(* runs and reachability *)
+Fixpoint fresh_run (c : cfg) (s : state) (tr : list event) : Prop :=
+  match tr with
+  | [] => True
+  | e :: r => fresh_ok s e /\ match step c s e with Some s' => fresh_run c s' r | None => True end
+  end.
+
+Lemma run_reach c tr : forall s s', reach c s -> fresh_run c s tr -> run c s tr = Some s' -> reach c s'.
+Proof.
+  induction tr as [|e tr IH]; cbn; intros s s' Hr Hf Hrun.
+  - now injection Hrun as <-.
+  - destruct Hf as [Hf1 Hf2]. destruct (step c s e) as [s1|] eqn:Hst; [|discriminate].
+    apply (IH s1 s'); auto. eapply reach_step; eauto.
+Qed.
+
+Lemma run_reach_any c tr : forall s s', reach_any c s -> run c s tr = Some s' -> reach_any c s'.
+Proof.
+  induction tr as [|e tr IH]; cbn; intros s s' Hr Hrun.
+  - now injection Hrun as <-.
+  - destruct (step c s e) as [s1|] eqn:Hst; [|discriminate].
+    apply (IH s1 s'); auto. eapply reacha_step; eauto.
+Qed.
+
+Lemma fresh_okb_ok s e : fresh_okb s e = true -> fresh_ok s e.
+Proof.
+  destruct e as [[pid| | |]| | | | | | | | |]; cbn; auto.
+  intros H Hin. apply negb_true_iff in H. rewrite <- not_true_iff_false in H. apply H.
+  apply existsb_exists. exists pid. split; auto. apply Z.eqb_refl.
+Qed.
+
+Lemma run_fresh_ok c tr : forall s, run_fresh c s tr = true -> fresh_run c s tr.
+Proof.
+  induction tr as [|e tr IH]; cbn; intros s H; auto.
+  apply andb_true_iff in H as [H1 H2]. split; [now apply fresh_okb_ok|].
+  destruct (step c s e); auto.
+Qed.
+
+(* ------------------------------------------------------------------ *)
+(* C39_teardown_complete                                                *)
+(* ------------------------------------------------------------------ *)
+Definition torn_down (k : kid) : Prop :=
+  os k = Reaped /\ gor k = GDone /\ (sig k = true \/ early k = true) /\ kil k = atgrace k.
+
+Lemma flags_ret k : flags_ok KRet k = true -> torn_down k.
+Proof. intros H. unfold torn_down. kid_cases k; repeat split; auto; discriminate. Qed.
+
+Lemma teardown_complete c s e : reach c s -> ph s = PReturned e -> Forall torn_down (kids s).
+Proof.
+  intros Hr Hp. apply reach_inv in Hr as [[_ _ H3 _] _ _]. rewrite Hp in H3.
+  eapply Forall_impl; [|exact H3]. intros k [Hf _]. now apply flags_ret.
+Qed.
+
+(* every child present at a teardown state is signalled unless it was reaped before the SIGTERM loop *)
+Lemma flags_tear_sig pc k : pc <> KRun -> flags_ok pc k = true ->
+  (sig k = true \/ early k = true) /\ (os k <> Reaped -> sig k = true) /\ (early k = true -> os k = Reaped).
+Proof. intros Hpc H. destruct pc; [congruence| | |]; kid_cases k; repeat split; auto; try discriminate; try congruence. Qed.
+
+Lemma teardown_signalled c s : reach c s -> tearing (ph s) = true ->
+  Forall (fun k => (sig k = true \/ early k = true) /\ (os k <> Reaped -> sig k = true)) (kids s).
+Proof.
+  intros Hr Ht. apply reach_inv in Hr as [[_ _ H3 _] _ _].
+  eapply Forall_impl; [|exact H3]. intros k [Hf _].
+  apply flags_tear_sig in Hf; [tauto|]. destruct (ph s); cbn in *; discriminate.
+Qed.
+
+(* the kill loop hits exactly the children not yet reaped when the grace timer fires *)
+Lemma flags_kill_exact k m : flags_ok KGrace k = true -> (processed k = false -> in_procs m k = true) ->
+  kil (kill_kid m k) = negb (o_reapedb (os (kill_kid m k))) /\ kil k = false.
+Proof.
+  intros H Hp. unfold kill_kid. remember (in_procs m k) as b eqn:Hb. clear Hb.
+  destruct k as [ci pi o g sg kl pr ea ag]; cbn in *.
+  destruct o, g, sg, kl, pr, ea, ag; cbn in *; try discriminate; auto;
+    try (rewrite Hp by reflexivity; auto).
+Qed.
+
+Lemma grace_kills_survivors c s s' : reach c s -> step c s EGrace = Some s' ->
+  Forall (fun k => kil k = false) (kids s) /\
+  Forall (fun k => kil k = negb (o_reapedb (os k))) (kids s').
+Proof.
+  intros Hr Hst. apply reach_inv in Hr as [[_ _ H3 _] _ _]. cbn in Hst.
+  destruct (ph s) eqn:Hph; try discriminate. injection Hst as <-. cbn.
+  rewrite Forall_forall in H3. split; apply Forall_forall.
+  - intros k Hin. destruct (H3 k Hin) as [Hf Hm]. cbn in Hf.
+    apply (flags_kill_exact k (procs s)); auto. intros Hp. apply in_procs_true; auto.
+  - intros k' Hin. apply in_map_iff in Hin as [k [<- Hin]]. destruct (H3 k Hin) as [Hf Hm]. cbn in Hf.
+    apply (flags_kill_exact k (procs s)); auto. intros Hp. apply in_procs_true; auto.
+Qed.
+
+(* no SIGKILL before the grace timer *)
+Lemma flags_nokill pc k : pc = KRun \/ pc = KGrace -> flags_ok pc k = true -> kil k = false.
+Proof. intros [-> | ->] H; kid_cases k. Qed.
+
+Lemma no_kill_before_grace c s : reach c s ->
+  match ph s with PKilled _ | PReturned _ => True | _ => Forall (fun k => kil k = false) (kids s) end.
+Proof.
+  intros Hr. apply reach_inv in Hr as [[_ _ H3 _] _ _].
+  destruct (ph s) eqn:Hph; auto; (eapply Forall_impl; [|exact H3]); intros kk [Hf _]; cbn in Hf;
+    (apply (flags_nokill KRun kk); auto) || (apply (flags_nokill KGrace kk); auto).
+Qed.
+
+(* progress: after the grace timer nobody that is still alive has been spared *)
+Lemma flags_killed_alive k : flags_ok KKilled k = true -> os k <> Reaped -> kil k = true /\ sig k = true.
+Proof. intros H Ho. kid_cases k; try congruence; split; auto. Qed.
+
+Lemma survivors_all_killed c s e : reach c s -> ph s = PKilled e ->
+  Forall (fun k => os k <> Reaped -> kil k = true /\ sig k = true) (kids s).
+Proof.
+  intros Hr Hp. apply reach_inv in Hr as [[_ _ H3 _] _ _]. rewrite Hp in H3.
+  eapply Forall_impl; [|exact H3]. intros k [Hf _]. now apply flags_killed_alive.
+Qed.
+
+(* prefork returns exactly when every Wait goroutine is done, i.e. every started child is reaped *)
+Lemma drain_enabled c s e : reach c s -> ph s = PGrace e \/ ph s = PKilled e ->
+  Forall (fun k => os k = Reaped) (kids s) -> exists s', step c s EDrain = Some s' /\ ph s' = PReturned e.
+Proof.
+  intros Hr Hp Hall. apply reach_inv in Hr as [[_ _ H3 _] _ _].
+  assert (all_done (kids s) = true) as Hd.
+  { unfold all_done. apply forallb_forall. intros k Hin. rewrite Forall_forall in H3, Hall.
+    destruct (H3 k Hin) as [Hf _]. specialize (Hall k Hin).
+    destruct Hp as [Hp|Hp]; rewrite Hp in Hf; cbn in Hf; kid_cases k. }
+  cbn. destruct Hp as [-> | ->]; rewrite Hd; eexists; split; reflexivity.
+Qed.
+
+(* ------------------------------------------------------------------ *)
+(* C39_supervision, C39_over_recovery (state form)                     *)
+(* ------------------------------------------------------------------ *)
+Lemma supervision_state c s : reach c s -> ph s = PIdle ->
+  length (procs s) = G c /\
+  Z.of_nat (length (kids s)) - exited s = Z.of_nat (G c) /\
+  (exited s = 0 \/ exited s <= T c).
+Proof.
+  intros Hr Hp. apply reach_inv in Hr as [[_ _ _ H4] H5 H6]. rewrite Hp in H5, H6. cbn in H5.
+  destruct H6 as [_ H6]. cbn in H6. repeat split; auto. now rewrite <- H5.
+Qed.
+
+(* every supervised child (unprocessed exit) is an entry of childProcs, hence will be signalled *)
+Lemma supervised_in_map c s : reach c s ->
+  Forall (fun k => processed k = false -> In (cpid k, cid k) (procs s)) (kids s).
+Proof.
+  intros Hr. apply reach_inv in Hr as [[_ _ H3 _] _ _]. eapply Forall_impl; [|exact H3]. now intros k [_ H].
+Qed.
+
+Lemma over_recovery_state c s e : reach c s -> ph s = PReturned e ->
+  (e = ErrOverRecovery -> exited s > T c /\ 1 <= exited s) /\
+  (e <> ErrOverRecovery -> exited s = 0 \/ exited s <= T c).
+Proof.
+  intros Hr Hp. apply reach_inv in Hr as [_ _ H6]. rewrite Hp in H6. destruct H6 as [_ H6]. cbn in H6.
+  destruct e; split; intros; try congruence; auto.
+Qed.
+
+(* ------------------------------------------------------------------ *)
+(* trace form: accepted label sequences satisfy the Spec               *)
+(* ------------------------------------------------------------------ *)
+Definition is_rec (p : phase) : bool := match p with PRecSpawn _ => true | _ => false end.
+
+Lemma next_init_not_rec c k : is_rec (next_init c k) = false.
+Proof. unfold next_init. destruct (Nat.ltb k (G c)); [reflexivity|]. destruct (hook_ready c); reflexivity. Qed.
+Lemma after_rec_not_rec c o n : is_rec (after_rec_hook c o n) = false.
+Proof. unfold after_rec_hook. destruct (hook_recover c); reflexivity. Qed.
+
+Definition same_counts (s s1 : state) : Prop :=
+  length (kids s1) = length (kids s) /\ exited s1 = exited s.
+
+Lemma hook_result_shape o e p s : is_rec p = false ->
+  same_counts s (hook_result o e p s) /\ is_rec (ph (hook_result o e p s)) = false.
+Proof.
+  intros Hp. destruct o; cbn; unfold same_counts; cbn; rewrite ?map_length; auto.
+Qed.
+
+Lemma step_shape c s e s1 : step c s e = Some s1 ->
+  match e with
+  | ESpawn (PStarted _) => length (kids s1) = S (length (kids s)) /\ exited s1 = exited s /\ is_rec (ph s1) = false
+  | ESpawn _ => same_counts s s1 /\ is_rec (ph s1) = false
+  | ERecv _ => ph s = PIdle /\ length (kids s1) = length (kids s) /\ exited s1 = exited s + 1 /\
+               is_rec (ph s1) = (exited s + 1 <=? T c)
+  | EDie _ _ | EReap _ | ETimer _ => same_counts s s1 /\ ph s1 = ph s
+  | _ => is_rec (ph s) = false /\ same_counts s s1 /\ is_rec (ph s1) = false
+  end.
+Proof.
+  intros Hst. unfold same_counts.
+  destruct e as [r|o|o|old new|pid|ci d|ci|ci| |]; cbn in Hst.
+  - destruct (ph s) eqn:Hph; try discriminate;
+      (destruct r as [pid| | |]; cbn in Hst; injection Hst as <-; cbn; rewrite ?map_length, ?app_length; cbn;
+       [|auto|auto|auto]; repeat split; try lia;
+       destruct (hook_spawn c); cbn; auto using next_init_not_rec, after_rec_not_rec).
+  - destruct (ph s) eqn:Hph; try discriminate; injection Hst as <-; split; auto;
+      apply hook_result_shape; auto using next_init_not_rec, after_rec_not_rec.
+  - destruct (ph s) eqn:Hph; try discriminate; injection Hst as <-; split; auto.
+    apply hook_result_shape; auto.
+  - destruct (ph s) eqn:Hph; try discriminate. destruct ((old0 =? old) && (new0 =? new)); try discriminate.
+    injection Hst as <-. cbn. auto.
+  - destruct (ph s) eqn:Hph; try discriminate.
+    destruct (find _ (kids s)) as [k0|]; try discriminate.
+    destruct (exited s + 1 >? T c) eqn:Hgt; injection Hst as <-; cbn; rewrite ?map_length, ?upd_length;
+      repeat split; auto; symmetry; lia.
+  - destruct (find_kid ci (kids s)) as [k0|]; try discriminate.
+    destruct (os k0); try discriminate.
+    destruct (match d with DSelf => true | DTerm => sig k0 | DKill => kil k0 end); try discriminate.
+    injection Hst as <-. cbn. rewrite upd_length. auto.
+  - destruct (find_kid ci (kids s)) as [k0|]; try discriminate.
+    destruct (os k0); try discriminate. destruct (gor k0); try discriminate.
+    injection Hst as <-. cbn. rewrite upd_length. auto.
+  - destruct (find_kid ci (kids s)) as [k0|]; try discriminate.
+    destruct (gor k0); try discriminate. destruct (tearing (ph s)); try discriminate.
+    injection Hst as <-. cbn. rewrite upd_length. auto.
+  - destruct (ph s) eqn:Hph; try discriminate. injection Hst as <-. cbn. rewrite map_length. auto.
+  - destruct (ph s) eqn:Hph; try discriminate; destruct (all_done (kids s)); try discriminate;
+      injection Hst as <-; cbn; auto.
+Qed.
+
+Lemma sup_sound c tr : forall s s', Inv c s -> fresh_run c s tr -> run c s tr = Some s' ->
+  sup (Z.of_nat (G c)) (T c) (Z.of_nat (length (kids s))) (exited s) (is_rec (ph s)) tr = true.
+Proof.
+  induction tr as [|e tr IH]; intros s s' Hi Hf Hrun; [reflexivity|].
+  cbn in Hrun, Hf. destruct Hf as [Hf1 Hf2].
+  destruct (step c s e) as [s1|] eqn:Hst; [|discriminate].
+  pose proof (step_inv _ _ _ _ Hi Hf1 Hst) as Hi1.
+  pose proof (step_shape _ _ _ _ Hst) as Hsh.
+  specialize (IH s1 s' Hi1 Hf2 Hrun).
+  destruct e as [r|o|o|old new|pid|ci d|ci|ci| |]; cbn [sup].
+  - destruct r as [pid| | |].
+    + destruct Hsh as (Hl & Hx & Hr). rewrite Hl, Hx, Hr in IH. rewrite <- IH. f_equal. lia.
+    + destruct Hsh as ((Hl & Hx) & Hr). now rewrite Hl, Hx, Hr in IH.
+    + destruct Hsh as ((Hl & Hx) & Hr). now rewrite Hl, Hx, Hr in IH.
+    + destruct Hsh as ((Hl & Hx) & Hr). now rewrite Hl, Hx, Hr in IH.
+  - destruct Hsh as (Hn & (Hl & Hx) & Hr). rewrite Hl, Hx, Hr in IH. now rewrite Hn, IH.
+  - destruct Hsh as (Hn & (Hl & Hx) & Hr). rewrite Hl, Hx, Hr in IH. now rewrite Hn, IH.
+  - destruct Hsh as (Hn & (Hl & Hx) & Hr). rewrite Hl, Hx, Hr in IH. now rewrite Hn, IH.
+  - destruct Hsh as (Hp & Hl & Hx & Hr). rewrite Hl, Hx, Hr in IH. rewrite Hp, IH. cbn.
+    destruct Hi as [[_ _ _ H4] H5 _]. rewrite Hp in H5. cbn in H5. rewrite andb_true_r. lia.
+  - destruct Hsh as ((Hl & Hx) & Hp). now rewrite Hl, Hx, Hp in IH.
+  - destruct Hsh as ((Hl & Hx) & Hp). now rewrite Hl, Hx, Hp in IH.
+  - destruct Hsh as ((Hl & Hx) & Hp). now rewrite Hl, Hx, Hp in IH.
+  - destruct Hsh as (Hn & (Hl & Hx) & Hr). rewrite Hl, Hx, Hr in IH. now rewrite Hn, IH.
+  - destruct Hsh as (Hn & (Hl & Hx) & Hr). rewrite Hl, Hx, Hr in IH. now rewrite Hn, IH.
+Qed.
+
+Lemma run_counts c tr : forall s s', run c s tr = Some s' -> exited s' = exited s + count_recv tr.
+Proof.
+  induction tr as [|e tr IH]; cbn [run]; intros s s' Hrun.
+  - injection Hrun as <-. cbn. lia.
+  - destruct (step c s e) as [s1|] eqn:Hst; [|discriminate].
+    pose proof (step_shape _ _ _ _ Hst) as Hsh. rewrite (IH _ _ Hrun).
+    unfold same_counts in Hsh.
+    destruct e as [[pid| | |]| | | | | | | | |]; cbn [count_recv]; try lia; intuition lia.
+Qed.
+
+Lemma accepted_supervised c tr s : fresh_run c (init c) tr -> run c (init c) tr = Some s ->
+  supervised c tr = true.
+Proof.
+  intros Hf Hrun. unfold supervised.
+  pose proof (sup_sound c tr (init c) s (init_inv c) Hf Hrun) as H. cbn in H.
+  now rewrite next_init_not_rec in H.
+Qed.
+
+Lemma accepted_over_recovery c tr s e : 0 <= T c -> fresh_run c (init c) tr ->
+  run c (init c) tr = Some s -> ph s = PReturned e -> over_recovery_ok c tr e = true.
+Proof.
+  intros HT Hf Hrun Hp. pose proof (run_counts _ _ _ _ Hrun) as Hc. cbn in Hc.
+  assert (reach c s) as Hr by (eapply run_reach; eauto; constructor).
+  destruct (over_recovery_state c s e Hr Hp) as [H1 H2]. unfold over_recovery_ok. rewrite <- Hc.
+  destruct e; cbn; try (destruct H2 as [H2|H2]; [discriminate| |]; lia); try (specialize (H2 ltac:(discriminate)); lia).
+  destruct H1 as [H1 _]; auto. lia.
+Qed.
